@@ -12,8 +12,14 @@ INT_MODE = {0: 'zero', 1: 'symmetric', 2: 'periodization', 3: 'constant', 4: 're
 MODE_INT = {v: k for k, v in INT_MODE.items()}
 
 
-import random as _random
-_view_rng = _random.Random(rt.seed() * 7919 + 13)
+import hashlib as _hashlib
+
+
+def _u(a, salt=''):
+    """a number in [0,1) that is a function of VERIF_SEED and of the array's content only, so that replaying a
+    case reproduces the memory layout / history it was given"""
+    h = _hashlib.sha1(('%d|%s|%s|' % (rt.seed(), salt, np.shape(a))).encode() + np.ascontiguousarray(a).tobytes()[:4096]).digest()
+    return int.from_bytes(h[:6], 'big') / float(1 << 48)
 
 
 def T(a):
@@ -23,7 +29,7 @@ def T(a):
     layout-independence check."""
     a = np.asarray(a, dtype=np.float64)
     if a.ndim in (3, 4) and a.size > 1:
-        r = _view_rng.random()
+        r = _u(a, 'view')
         if r < 0.10:
             perm = list(range(a.ndim)); perm[-1], perm[-2] = perm[-2], perm[-1]
             return torch.tensor(np.ascontiguousarray(a.transpose(perm)), dtype=torch.float64).transpose(-1, -2)
@@ -164,7 +170,50 @@ def SFB2D_fwd(ps, ts):
     return [N(y)]
 
 
+# When an oracle exercises a NAMED PyWavelets wavelet it sets WNAME (a name, or a (column, row) pair of names):
+# the module is then constructed from the name, the way users do, so that the name-resolution path
+# (pywt lookup, any per-name preparation or caching of the filters) is part of what is compared.
+WNAME = None
+
+
+class named:
+    def __init__(self, name):
+        ok = isinstance(name, str) or (isinstance(name, (tuple, list)) and all(isinstance(n, str) for n in name))
+        self.v = (name if isinstance(name, str) else tuple(name)) if ok else None
+
+    def __enter__(self):
+        global WNAME
+        WNAME = self.v
+
+    def __exit__(self, *a):
+        global WNAME
+        WNAME = None
+
+
+class Mutated(Exception):
+    """the library changed a container the caller passed in"""
+
+
+def _inverse_with_list_history(mod, yl, yh):
+    """`yh` is the caller's own Python list.  When its coarsest entry is None the same list object is first
+    used for a call with a one-sample-longer low-pass (a different, valid pyramid), then for the call under
+    test; afterwards the list must still hold exactly the caller's objects."""
+    before = list(yh)
+    if yh and yh[-1] is None and _u(yl.detach().cpu().numpy(), 'list') < 0.5:
+        try:
+            with torch.no_grad():
+                mod((torch.cat([yl, yl[..., -1:]], dim=-1), yh))
+        except Exception:
+            pass
+    y = mod((yl, yh))
+    if len(yh) != len(before) or any(a is not b for a, b in zip(yh, before)):
+        raise Mutated('the list of band-pass levels passed by the caller was modified (entries %s replaced)' % [i for i, (a, b) in enumerate(zip(yh, before)) if a is not b])
+    return y
+
+
 def _wave(ts, nw):
+    if WNAME is not None:
+        return WNAME
     return tuple(np.asarray(t, dtype=np.float64) for t in ts[:nw])
 
 
@@ -172,7 +221,7 @@ def DWT1DForward(ps, ts):
     m, J = ps
     h0, h1, x = ts
     from pytorch_wavelets.dwt.transform1d import DWT1DForward as M
-    mod = M(J=J, wave=(h0, h1), mode=INT_MODE[m])
+    mod = M(J=J, wave=_wave(ts, 2), mode=INT_MODE[m])
     yl, yh = mod(T(x))
     return [N(yl)] + [N(h) for h in yh]
 
@@ -182,8 +231,8 @@ def DWT1DInverse(ps, ts):
     g0, g1, yl = ts[:3]
     yh = ts[3:]
     from pytorch_wavelets.dwt.transform1d import DWT1DInverse as M
-    mod = M(wave=(g0, g1), mode=INT_MODE[m])
-    y = mod((T(yl), [None if h is None else T(h) for h in yh]))
+    mod = M(wave=_wave(ts, 2), mode=INT_MODE[m])
+    y = _inverse_with_list_history(mod, T(yl), [None if h is None else T(h) for h in yh])
     return [N(y)]
 
 
@@ -201,7 +250,7 @@ def DWTInverse(ps, ts):
     mod = M(wave=_wave(ts, nw), mode=INT_MODE[m])
     yl = ts[nw]
     yh = ts[nw + 1:]
-    y = mod((T(yl), [None if h is None else T(h) for h in yh]))
+    y = _inverse_with_list_history(mod, T(yl), [None if h is None else T(h) for h in yh])
     return [N(y)]
 
 
@@ -257,4 +306,4 @@ def sfb2d_nonsep(ps, ts):
     return [N(ll().sfb2d_nonsep(T(co), f.to(torch.float64), mode=INT_MODE[m]))]
 
 
-IMPL = {k: v for k, v in list(globals().items()) if callable(v) and k[0] != '_' and k not in ('T', 'N', 'll')}
+IMPL = {k: v for k, v in list(globals().items()) if callable(v) and k[0] != '_' and k not in ('T', 'N', 'll', 'named', 'Mutated')}
